@@ -676,6 +676,12 @@ def translate_jobinit(repo):
     m = O.ObjMethod(fd, dict(JOBUTIL_KNOWN), "pyjobstate", fields, JOB_ALIASES, TIMER_METHODS, templates,
                     opaque_params=("handle", "args", "kwargs", "tags", "alias"),
                     opaque_fields=("__type", "__timing", "__handle", "__args", "__kwargs", "__tags", "__alias"),
+                    # the job owns its arguments, keyword mapping and tags as values (C19: Model/Job.v keeps them in
+                    # the configuration); the only forms the constructor may store them in:
+                    opaque_values={"__type": "job_type", "__timing": "timing", "__handle": "handle", "__alias": "alias",
+                                   "__args": "() if args is None else args",
+                                   "__kwargs": "{} if kwargs is None else kwargs.copy()",
+                                   "__tags": "set() if tags is None else tags.copy()"},
                     constructors={"JobTimer": ("jobtimer_new", ["jobtype", "timingu", "datetime", "bool"], "pytimer")})
     text = m.emit("basejob_init")
     params = [(a, t) for a, t in m.params]
